@@ -276,8 +276,10 @@ impl Model {
                     // |mean square error| <= (2T + N + 2) eps N max_sq / N
                     let delta = (2.0 * self.rms_t as f64 + n + 2.0) * self.float_eps * self.rms_max_sq * (1.0 + self.float_eps);
                     let d = ms.sqrt();
-                    let hi = (ms + delta).sqrt() * (1.0 + 2.0 * self.float_eps);
-                    let lo = (ms - delta).max(0.0).sqrt() * (1.0 - 2.0 * self.float_eps);
+                    // (no_std build: the square root itself is C11's 7% approximation)
+                    let (rel, abs) = if cfg!(feature = "nostd") { (0.07, 1e-18) } else { (2.0 * self.float_eps, 0.0) };
+                    let hi = (ms + delta).sqrt() * (1.0 + rel) + abs;
+                    let lo = (ms - delta).max(0.0).sqrt() * (1.0 - rel) - abs;
                     self.rms_tol[ch] = (hi - d).max(d - lo) + f64::MIN_POSITIVE;
                     d
                 })
@@ -304,10 +306,14 @@ fn check_frame<F: EnvFrame>(m: &mut Model, x: &[f64], got: &[f64], out_lsb: f64,
         // integer formats truncate once more through their float companion
         // (plus the absolute spacing of subnormal numbers of the float type)
         let tiny = if F::FLOAT_EPS > 1e-10 { 8.0 * 1.5e-45 } else { 8.0 * 5e-324 };
+        // within the detected value's own tolerance of the previous envelope the detector may
+        // legitimately have chosen the other time constant
+        let ambiguous = (env - dv).abs() <= d_tol;
+        let want_other = dv + gain(if attack_selected { m.release } else { m.attack }) * (env - dv);
         let tol = (4.0 * E32 + 2.0 * F::FLOAT_EPS) * (env - dv).abs() + 4.0 * out_eps * (env.abs() + dv.abs()) + 2.0 * out_lsb + d_tol + tiny;
         check!(
             obs,
-            got[ch].is_finite() && (got[ch] - want).abs() <= tol,
+            got[ch].is_finite() && ((got[ch] - want).abs() <= tol || (ambiguous && (got[ch] - want_other).abs() <= tol)),
             "envelope.one-pole",
             "frame {} channel {}: got {}, detected {} + gain {} ({} = {} frames) x (previous {} - detected) = {} (tolerance {:e}, {:?})",
             m.n,
@@ -342,7 +348,7 @@ fn check_frame<F: EnvFrame>(m: &mut Model, x: &[f64], got: &[f64], out_lsb: f64,
             obs.probe(P_EQUALS_DETECTED);
             check!(
                 obs,
-                (got[ch] - dv).abs() <= d_tol + out_lsb * 0.0,
+                ambiguous || (got[ch] - dv).abs() <= d_tol + out_lsb * 0.0,
                 "envelope.zero-time",
                 "frame {} channel {}: selected time is 0 but the output {} is not the detected value {}",
                 m.n,
@@ -617,7 +623,12 @@ where
 
 impl Scenario for EnvelopeScenario {
     fn name(&self) -> &'static str {
-        "envelope"
+        // (the same scenario is also built against the no_std feature set, see dsim-nostd-signal)
+        if cfg!(feature = "nostd") {
+            "envelope-nostd"
+        } else {
+            "envelope"
+        }
     }
     fn property(&self) -> &'static str {
         "C19"
@@ -670,10 +681,12 @@ impl Scenario for EnvelopeScenario {
         ]
     }
     fn runs(&self, tier: &str) -> u64 {
+        // (the no_std twin build of the same scenario runs a third of the budget)
+        let div = if cfg!(feature = "nostd") { 3 } else { 1 };
         if tier == "quick" {
-            500_000
+            500_000 / div
         } else {
-            20_000_000
+            20_000_000 / div
         }
     }
     fn run(&self, src: &mut Source, obs: &mut Observer) -> Result<(), Violation> {
